@@ -1,8 +1,10 @@
 #!/bin/sh
-# run every quick check on the current tree; one line per check (exit status, seconds, VIOLATION lines)
+# run every check (default: quick) on the current tree; one line per check (exit status, seconds, VIOLATION lines)
+# usage: tools/run_all.sh [quick|thorough] [logdir]   (logs default to /tmp)
 cd "$(dirname "$0")/.."
+L=${2:-/tmp}; mkdir -p "$L"
 for p in C01 C02 C03 C04 C05 C06 C07 C08 C09 C10 C11 C12 C13 C14 C15 C16 C17 C18 C19; do
-  s=$(date +%s); ./check $p ${1:-quick} > /tmp/runall_$p.log 2>&1; rc=$?
-  echo "$p rc=$rc t=$(( $(date +%s) - s )) $(grep -c '^VIOLATION' /tmp/runall_$p.log) violations $(grep -c '^KNOWN-FINDING' /tmp/runall_$p.log) known"
-  grep '^VIOLATION\|Traceback\|Error' /tmp/runall_$p.log | head -3
+  s=$(date +%s); ./check $p ${1:-quick} > "$L/runall_$p.log" 2>&1; rc=$?
+  echo "$p rc=$rc t=$(( $(date +%s) - s )) $(grep -c '^VIOLATION' "$L/runall_$p.log") violations $(grep -c '^KNOWN-FINDING' "$L/runall_$p.log") known"
+  grep '^VIOLATION\|Traceback\|Error' "$L/runall_$p.log" | head -3
 done
